@@ -821,3 +821,72 @@ def candidate_order(ctx):
                     ctx.violate('keys:' + q, 'the candidate list `%s` is rebuilt through %s(): the priority order of the network definitions is lost' % (norm(s_)[:90], bad[0]), s_,
                                 'a tprv / vprv imported without a network hint becomes a dogecoin_testnet / signet key')
     ctx.saw('%d candidate-network lists are built without set() / sorted()' % nd)
+
+
+@PROP.obligation('C12.detect-bytes', canaries=[
+    mut.replace_expr('keys', 'get_key_format', 'len(key) == 33', 'len(key) in [33, 65]', '65 bytes with a compressed prefix taken for a public key', nth=0),
+    mut.replace_expr('keys', 'get_key_format', 'len(key) == 65', 'len(key) in [33, 65]', '33 bytes starting 04 (a private key with compression suffix) taken for a public key', nth=0),
+])
+def detect_bytes(ctx):
+    """get_key_format on BYTE strings, evaluated on shapes like C12.detect-hex and held to the same table as the hex forms: 33 bytes
+    starting 02 / 03 are a compressed public key, 65 bytes starting 04 an uncompressed one; 33 bytes that start with anything else and
+    end in 01 are a private key with compression suffix (1 in 256 of them starts with 04), 32 bytes a private key; 65 bytes starting
+    02 / 03 and 33 bytes starting 04 without the suffix are no key at all. No verdict may depend on the symbolic middle."""
+    q = 'keys:get_key_format'
+    fn = ctx.repo.func(q)
+    it = Interp(ctx.repo, 'keys', hooks=dict(LAYOUT_HOOKS))
+    try:
+        exits = it.run_function(fn, {'key': S(('var', 'key'), 'bytes'), 'is_private': None})
+    except AnalysisError as e:
+        ctx.undecided('get_key_format on a byte string not evaluable: %s' % str(e)[:100])
+    rets = [e for e in exits if e.kind == 'return' and isinstance(e.value, dict)]
+    if not rets:
+        ctx.undecided('get_key_format: no dictionary result')
+    K = ('var', 'key')
+
+    def prep(t):
+        def f(x):
+            if isinstance(x, tuple) and x and x[0] == 'isinstance' and x[1] == K:
+                return show(x[2]).endswith("'bytes')") or show(x[2]) == 'bytes' or "global('bytes')" in show(x[2])
+            if x == ('not', K):
+                return False
+            return None
+        return rewrite(t, f)
+    fmt_t, priv_t = prep(term(rets[-1].value['format'])), prep(term(rets[-1].value['is_private']))
+    cases = [
+        ('33 bytes 02..01', [b'\x02', ('mid', 31), b'\x01'], ('bin_compressed', False)),
+        ('33 bytes 03..ab', [b'\x03', ('mid', 31), b'\xab'], ('bin_compressed', False)),
+        ('65 bytes 04..', [b'\x04', ('mid', 63), b'\xab'], ('bin', False)),
+        ('33 bytes 04..01', [b'\x04', ('mid', 31), b'\x01'], ('bin_compressed', True)),
+        ('33 bytes ab..01', [b'\xab', ('mid', 31), b'\x01'], ('bin_compressed', True)),
+        ('32 bytes', [b'\x04', ('mid', 30), b'\x01'], ('bin', True)),
+        ('65 bytes 02..', [b'\x02', ('mid', 63), b'\xab'], None),
+        ('65 bytes 03..01', [b'\x03', ('mid', 63), b'\x01'], None),
+    ]
+    n = 0
+    for name, lay, exp in cases:
+        env = {K: seg.seg(*lay)}
+        try:
+            f = seg.seg_eval(fmt_t, env)
+            p_ = seg.seg_eval(priv_t, env)
+        except seg.SegUnknown as e:
+            if exp is None:
+                # shapes that are no key fall through to the string forms, which the byte-shape evaluation does not follow
+                ctx.saw('%s -> falls through to the text forms (%s)' % (name, str(e)[:40]))
+                n += 1
+                continue
+            ctx.undecided('get_key_format: verdict for %s not evaluable: %s' % (name, str(e)[:100]))
+        n += 1
+        ctx.saw('%s -> %s' % (name, (f, p_)))
+        if isinstance(f, seg.Dep) or isinstance(p_, seg.Dep):
+            if exp is None:
+                continue
+            ctx.violate(q, 'the verdict for a byte string of shape %s depends on its middle bytes' % name, fn)
+            continue
+        if exp is None:
+            ctx.require(p_ is not False or not f, q, 'a byte string of shape %s is classified as the public key form %r' % (name, f), fn,
+                        'a 65-byte string with a compressed-key prefix is accepted as a public key: the verifier takes an encoding no other implementation accepts')
+        else:
+            ctx.require((f, p_) == exp, q, 'a byte string of shape %s is classified %s, expected %s' % (name, (f, p_), exp), fn,
+                        'a private key in the 33-byte form (secret + 01) whose secret starts with 04 is imported as a PUBLIC key made of its own bytes' if exp[1] else 'a public key is not recognised')
+    ctx.floor(n, 8, 'byte shapes')
